@@ -859,15 +859,17 @@ def sk_nontrivial(D, cols):
     return False
 
 
-def sk_program(D, pattern, cols, patterns_per_level=None, qq_levels=()):
+def sk_program(D, pattern, cols, patterns_per_level=None, qq_levels=(), kstyle="param"):
     """the probe program of a skeleton: every read is logged with display; at the levels in
-    qq_levels the read goes through a quasiquote template, (display `(,x))"""
+    qq_levels the read goes through a quasiquote template, (display `(,x)).  kstyle: the
+    location holding the next-level closure is a parameter of its creator ("param", passed
+    #f) or an internal definition ("idef": procedures without bound names are thunks)"""
     pats = patterns_per_level or [pattern] * D
 
     def args_for(l):
         """actual arguments for the level-l procedure: #f for its closure slot, then
         parameters in name order, then two extra for the rest parameter"""
-        a = ["#f"]
+        a = ["#f"] if kstyle == "param" else []
         for n in range(3):
             if cols[n][l][0] == "P":
                 a.append("'%s%d" % (NAMES3[n], l + 1))
@@ -886,10 +888,15 @@ def sk_program(D, pattern, cols, patterns_per_level=None, qq_levels=()):
 
     def proc(l, extra_reads=()):
         k = "k%d" % (l + 1)
-        formals = [k] + [NAMES3[n] for n in range(3) if cols[n][l][0] == "P"]
+        formals = ([k] if kstyle == "param" else []) + [NAMES3[n] for n in range(3) if cols[n][l][0] == "P"]
         rest = [NAMES3[n] for n in range(3) if cols[n][l][0] == "R"]
-        ftxt = "(%s%s)" % (" ".join(formals), (" . " + rest[0]) if rest else "")
+        if rest and not formals:
+            ftxt = rest[0]
+        else:
+            ftxt = "(%s%s)" % (" ".join(formals), (" . " + rest[0]) if rest else "")
         body = []
+        if kstyle == "idef" and l < D - 1:
+            body.append("(define %s #f)" % k)
         for n in range(3):
             if cols[n][l][0] == "I":
                 body.append("(define %s '%s%di)" % (NAMES3[n], NAMES3[n], l + 1))
@@ -938,17 +945,30 @@ def sk_program(D, pattern, cols, patterns_per_level=None, qq_levels=()):
             body.append(k)
         return "(lambda %s %s)" % (ftxt, " ".join(body))
 
+    def call_of(f, l):
+        return ("(%s %s)" % (f, args_for(l))).replace(" )", ")")
+
+    def returns_closure(l):
+        return l < D - 1 and pats[l] in ("ret", "ret2")
+
+    def use(cexpr, l):
+        """cexpr evaluates to the level-l procedure, which its creator RETURNED (pats[l-1] is
+        ret or ret2).  ret: one activation.  ret2 (repeatedly): the same closure is activated
+        several times; when those activations return closures of their own, the first one's is
+        used again AFTER the second activation ran (separate activations, separate locations;
+        the creator's locations are shared)"""
+        if pats[l - 1] == "ret":
+            call = call_of(cexpr, l)
+            return use(call, l + 1) if returns_closure(l) else call
+        if returns_closure(l):
+            return "((lambda (cl) ((lambda (x y) %s %s %s) %s %s)) %s)" % (
+                use("x", l + 1), use("y", l + 1), use("x", l + 1), call_of("cl", l), call_of("cl", l), cexpr)
+        return "((lambda (cl) %s %s %s) %s)" % (call_of("cl", l), call_of("cl", l), call_of("cl", l), cexpr)
+
     def invoke(f, l):
-        """call the level-l procedure held by expression f; under 'ret' patterns the result is
-        the next closure, which the invoker calls in turn"""
-        call = "(%s %s)" % (f, args_for(l))
-        if l < D - 1 and pats[l] in ("ret", "ret2"):
-            if pats[l] == "ret":
-                return invoke(call, l + 1)
-            # repeatedly: the returned closure is invoked twice (two activations of level l+1
-            # sharing one activation of level l)
-            return "((lambda (cl) %s %s) %s)" % (invoke("cl", l + 1), invoke("cl", l + 1), call)
-        return call
+        """call the level-l procedure held by expression f (from its creator's body or the top level)"""
+        call = call_of(f, l)
+        return use(call, l + 1) if returns_closure(l) else call
 
     forms = ["(define a 'a0) (define b 'b0) (define c 'c0)",
              "(define p1 %s)" % proc(0)]
